@@ -5,6 +5,7 @@
 package main
 
 import (
+	"context"
 	"encoding/json"
 	"fmt"
 	"os"
@@ -16,6 +17,7 @@ import (
 	"github.com/NethermindEth/juno/db"
 	"github.com/NethermindEth/juno/db/memory"
 	"github.com/NethermindEth/juno/db/pebblev2"
+	"github.com/NethermindEth/juno/pruner"
 	"verif/harness/lib"
 )
 
@@ -112,6 +114,68 @@ func rejectsScenario(k scenKey) *Scenario {
 	return sc
 }
 
+// storeWhere stores (or finalises) the next block of the given protocol version, drawing blocks
+// until one satisfies pred (the generator is rolled back after each unsuitable draw).
+func (b *builder) storeWhere(version string, pred func(*lib.Bundle) bool, finalise bool) {
+	for try := 0; try < 400; try++ {
+		bd, err := b.g.Next(eventfulSpec(b.g, b.r, version))
+		if err != nil {
+			panic(fmt.Sprintf("generator: %v", err))
+		}
+		if pred(bd) {
+			op := "store"
+			if finalise {
+				op = "finalise"
+			}
+			b.push(Step{Op: op, B: bd})
+			return
+		}
+		if err := b.g.Revert(); err != nil {
+			panic(fmt.Sprintf("generator: %v", err))
+		}
+	}
+	panic("harness: the generator produced no block of the wanted kind in 400 draws")
+}
+
+// classes: the rarely taken branches of writeBlockContent / deleteBlockContent — CASM-hash
+// metadata of a class declared before 0.14.1 (v1 hash, v2 computed), of one declared from 0.14.1 on,
+// of a MIGRATED class (metadata read from the database and rewritten; RevertHead un-migrates it), an
+// L1-handler transaction (message-hash lookup) — stored, reverted across a process restart and
+// stored again, so that every one of them is written, deleted and rewritten under every fault.
+func classesScenario(k scenKey) *Scenario {
+	r := lib.NewRNG(k.Seed)
+	opt := lib.DefaultGenOptions()
+	opt.Versions = []string{"0.14.0", "0.14.1"}
+	g := lib.NewChainGen(r, k.SrcNew, opt)
+	sc := newScenario(k, g)
+	b := &builder{g: g, r: r, sc: sc}
+	sc.BaseWorld = b.world()
+	declares := func(bd *lib.Bundle) bool { return len(bd.SU.StateDiff.DeclaredV1Classes) > 0 }
+	migrates := func(bd *lib.Bundle) bool { return len(bd.SU.StateDiff.MigratedClasses) > 0 }
+	l1 := func(bd *lib.Bundle) bool {
+		for _, tx := range bd.Block.Transactions {
+			if _, ok := tx.(*core.L1HandlerTransaction); ok {
+				return true
+			}
+		}
+		return false
+	}
+	b.storeWhere("0.14.0", declares, false)
+	b.storeWhere("0.14.1", migrates, k.Seed%2 == 1)
+	b.revert()
+	if k.Seed%3 == 0 {
+		b.simple("kill")
+	}
+	b.storeWhere("0.14.1", migrates, false)
+	b.storeWhere("0.14.1", func(bd *lib.Bundle) bool { return declares(bd) || l1(bd) }, false)
+	b.simple("restart")
+	b.revert()
+	b.revert()
+	b.revert()
+	b.storeWhere("0.14.0", l1, k.Seed%2 == 0)
+	return sc
+}
+
 var exhaustiveOps = []string{"store", "finalise", "revert", "rejected", "snap", "restart", "kill", "l1head"}
 
 // exhaustive: after a fixed prefix (two blocks, graceful restart, one block) EVERY pair of calls
@@ -181,6 +245,7 @@ func pruneScenario(k scenKey) *Scenario {
 	g := lib.NewChainGen(r, k.SrcNew, opt)
 	sc := newScenario(k, g)
 	sc.Pruning = true
+	sc.ViaPruner = k.Seed%2 == 0
 	b := &builder{g: g, r: r, sc: sc}
 	sc.BaseWorld = b.world()
 	// (the pruner never prunes near the head; reverts stay above the retention floor)
@@ -211,6 +276,7 @@ func pruneDeepScenario(k scenKey) *Scenario {
 	g := lib.NewChainGen(r, k.SrcNew, lib.DefaultGenOptions())
 	sc := newScenario(k, g)
 	sc.Pruning = true
+	sc.ViaPruner = k.Seed%2 == 0
 	dst, dstDB := lib.NewNode(g.Net, k.DstNew)
 	fastForward(g, dst, 5, 2, r)
 	if err := dst.WriteRunningEventFilter(); err != nil {
@@ -232,9 +298,9 @@ func pruneDeepScenario(k scenKey) *Scenario {
 	return sc
 }
 
-// boundaryPrune: a pruning node across the event-window boundary: blocks up to 8193, a deep
-// single-batch prune to 8189, a three-batch prune past the boundary (window [0,8191] goes),
-// ungraceful restart, revert, store.
+// boundaryPrune: a pruning node across the event-window boundary: a base pruned below 8184, blocks
+// up to 8194, a single-batch prune to 8189, a multi-batch prune up to / past the boundary (window
+// [0,8191] goes when the target reaches 8192), ungraceful restart, revert, store.
 func boundaryPruneScenario(k scenKey, graceful bool) *Scenario {
 	bb := getBoundaryBase(k.DstNew)
 	r := lib.NewRNG(k.Seed)
@@ -242,21 +308,96 @@ func boundaryPruneScenario(k scenKey, graceful bool) *Scenario {
 	sc := newScenario(k, g)
 	sc.SrcNew = k.DstNew
 	sc.Pruning = true
-	sc.Base = bb.killed
+	sc.Base = bb.killedPruned
 	if graceful {
-		sc.Base = bb.graceful
+		sc.Base = bb.gracefulPruned
 	}
-	b := &builder{g: g, r: r, sc: sc}
+	sc.ViaPruner = true
+	b := &builder{g: g, r: r, sc: sc, flr: basePruneFloor}
 	sc.BaseWorld = b.world()
-	for i := 0; i < 5; i++ {
+	for i := 0; i < 6; i++ {
 		b.store(eventfulSpec(g, r, ""))
 	}
 	w := uint64(core.NumBlocksPerFilter)
 	b.pruneWith(w-3, oneBatch)
 	b.simple("kill")
-	b.prune(w + 1)
+	// the multi-batch prune ends just below, at, or just above the window boundary (the persisted
+	// window [0,8191] goes exactly when the target reaches 8192): target = W-1 .. W+2 by seed
+	b.prune(w - 1 + k.Seed%4)
 	b.simple("kill")
 	b.revert()
+	b.store(eventfulSpec(g, r, ""))
+	return sc
+}
+
+// pruneMixed: a pruning node under a RANDOM history in which prunes (one batch per block, a few
+// blocks per batch, or a single batch; targets anywhere between the floor and the head, so that they
+// straddle BlockHashLag = 10 from both sides) alternate with stores, reverts (never below the
+// floor), refused offers, snapshots, graceful and ungraceful restarts and L1-head updates.
+func pruneMixedScenario(k scenKey, nops int) *Scenario {
+	r := lib.NewRNG(k.Seed)
+	g := lib.NewChainGen(r, k.SrcNew, lib.DefaultGenOptions())
+	sc := newScenario(k, g)
+	sc.Pruning = true
+	sc.ViaPruner = k.Seed%2 == 0
+	b := &builder{g: g, r: r, sc: sc}
+	sc.BaseWorld = b.world()
+	for i := 0; i < 4+r.Intn(11); i++ {
+		b.store(eventfulSpec(g, r, ""))
+	}
+	pruned := false
+	for n := 0; n < nops; n++ {
+		h := uint64(g.Height() - 1) // number of the head block
+		x := r.Intn(20)
+		if n == nops-2 && !pruned {
+			x = 9 // every history of the family prunes at least once
+		}
+		switch {
+		case x < 6:
+			if r.Chance(1, 4) {
+				b.finalise(eventfulSpec(g, r, ""))
+			} else {
+				b.store(eventfulSpec(g, r, ""))
+			}
+		case x < 8:
+			if h > b.flr {
+				b.revert()
+			} else {
+				b.store(eventfulSpec(g, r, ""))
+			}
+		case x < 12:
+			top := h // highest target: the head itself stays (the Pruner service stops one below)
+			if sc.ViaPruner {
+				top = h - 1
+			}
+			if top <= b.flr {
+				b.store(eventfulSpec(g, r, ""))
+				continue
+			}
+			to := b.flr + 1 + uint64(r.Intn(int(top-b.flr)))
+			switch r.Intn(3) {
+			case 0:
+				b.prune(to)
+			case 1:
+				b.pruneWith(to, 200+r.Intn(600))
+			default:
+				b.pruneWith(to, oneBatch)
+			}
+			pruned = true
+		case x < 13:
+			b.simple("snap")
+		case x < 15:
+			b.simple("restart")
+		case x < 17:
+			b.simple("kill")
+		case x < 18:
+			if !b.rejectedParent() {
+				b.rejected()
+			}
+		default:
+			b.l1head()
+		}
+	}
 	b.store(eventfulSpec(g, r, ""))
 	return sc
 }
@@ -266,7 +407,14 @@ type boundaryBase struct {
 	g        *lib.ChainGen
 	graceful *memory.Database
 	killed   *memory.Database
+	// the same two images pruned below basePruneFloor in one batch (a pruning node's base; the
+	// model driver builds this image in closed form, see Driver.lean `base <snap> <floor>`)
+	gracefulPruned *memory.Database
+	killedPruned   *memory.Database
 }
+
+// basePruneFloor: retention floor of the pruned base images (W-8).
+const basePruneFloor = uint64(core.NumBlocksPerFilter) - 8
 
 var (
 	baseMu    sync.Mutex
@@ -290,6 +438,13 @@ func getBoundaryBase(newState bool) *boundaryBase {
 		panic(err)
 	}
 	bb.graceful = dstDB.Copy()
+	for _, pair := range [][2]**memory.Database{{&bb.killedPruned, &bb.killed}, {&bb.gracefulPruned, &bb.graceful}} {
+		c := (*pair[1]).Copy()
+		if _, _, err := pruner.PruneUpto(context.Background(), c, basePruneFloor, oneBatch); err != nil {
+			panic(fmt.Sprintf("pruning the boundary base: %v", err))
+		}
+		*pair[0] = c
+	}
 	baseCache[newState] = bb
 	return bb
 }
@@ -338,6 +493,50 @@ func boundaryInitFaultScenario(k scenKey) *Scenario {
 	return sc
 }
 
+// boundaryInitFaultPruned: the same situation on a PRUNING node — the floor-aware initialiser
+// resumes the snapshot from max(next, floor). After blocks 8190 and 8191 the node prunes in one
+// batch, either to 8191 (the floor lies ABOVE the snapshot's next block 8190: the resume point is
+// clamped, the fill is the single block 8191, which is the last of its window and is persisted
+// directly) or to 8186 (floor below the snapshot); then the process is killed and the first call of
+// the new process is a snapshot write, a graceful restart, a RevertHead (floor 8190 then, so that
+// the revert stays above it) or a Store.
+func boundaryInitFaultPrunedScenario(k scenKey) *Scenario {
+	bb := getBoundaryBase(k.DstNew)
+	r := lib.NewRNG(k.Seed)
+	g := cloneGen(bb.g, r)
+	sc := newScenario(k, g)
+	sc.SrcNew = k.DstNew
+	sc.Pruning = true
+	sc.Base = bb.gracefulPruned
+	b := &builder{g: g, r: r, sc: sc, flr: basePruneFloor}
+	sc.BaseWorld = b.world()
+	b.store(eventfulSpec(g, r, ""))
+	b.store(eventfulSpec(g, r, ""))
+	w := uint64(core.NumBlocksPerFilter)
+	first := initFaultOps[k.Seed%4]
+	switch {
+	case first == "revert":
+		b.pruneWith(w-2, oneBatch)
+	case (k.Seed/4)%2 == 0:
+		b.pruneWith(w-1, oneBatch)
+	default:
+		b.pruneWith(w-6, oneBatch)
+	}
+	b.simple("kill")
+	switch first {
+	case "snap":
+		b.simple("snap")
+	case "restart":
+		b.simple("restart")
+	case "revert":
+		b.revert()
+		b.store(eventfulSpec(g, r, ""))
+	case "store":
+	}
+	b.store(eventfulSpec(g, r, ""))
+	return sc
+}
+
 // boundary: histories around the 8192-block window boundary. directed = the fixed shape
 // store×3, revert×2 (back across the boundary), store×2, kill, store; otherwise random.
 func boundaryScenario(k scenKey, graceful, directed bool, nops int) *Scenario {
@@ -353,12 +552,22 @@ func boundaryScenario(k scenKey, graceful, directed bool, nops int) *Scenario {
 	b := &builder{g: g, r: r, sc: sc}
 	sc.BaseWorld = b.world()
 	if directed {
-		for i := 0; i < 3; i++ {
-			b.store(eventfulSpec(g, r, ""))
+		// blocks 8190, 8191 (the last of its window), 8192; back across the boundary; 8191 and 8192
+		// again. By seed the boundary blocks go through Finalise (the sequencer's path, which has
+		// its own copy of the Store logic) instead of Store.
+		put := func(i uint64) {
+			if (k.Seed>>i)&1 == 1 {
+				b.finalise(eventfulSpec(g, r, ""))
+			} else {
+				b.store(eventfulSpec(g, r, ""))
+			}
 		}
-		b.revert()
-		b.revert()
 		b.store(eventfulSpec(g, r, ""))
+		put(0)
+		b.store(eventfulSpec(g, r, ""))
+		b.revert()
+		b.revert()
+		put(1)
 		b.store(eventfulSpec(g, r, ""))
 		b.simple("kill")
 		b.store(eventfulSpec(g, r, ""))
@@ -397,6 +606,8 @@ func buildScenario(k scenKey, f lib.Flags) *Scenario {
 		sc = rejectsScenario(k)
 	case "exhaustive":
 		sc = exhaustiveScenario(k)
+	case "classes":
+		sc = classesScenario(k)
 	case "prune":
 		sc = pruneScenario(k)
 	case "prune-deep":
@@ -407,6 +618,10 @@ func buildScenario(k scenKey, f lib.Flags) *Scenario {
 		sc = boundaryPruneScenario(k, true)
 	case "boundary-init-fault":
 		sc = boundaryInitFaultScenario(k)
+	case "boundary-init-fault-pruned":
+		sc = boundaryInitFaultPrunedScenario(k)
+	case "prune-mixed":
+		sc = pruneMixedScenario(k, f.Scale(8, 12))
 	case "boundary-directed-killed":
 		sc = boundaryScenario(k, false, true, 0)
 	case "boundary-directed-graceful":
@@ -420,6 +635,11 @@ func buildScenario(k scenKey, f lib.Flags) *Scenario {
 	}
 	if k.Backend == "pebble" {
 		sc.NewStore = pebbleStore
+	}
+	// a third of the never-pruning histories run on a node built with the plain initialiser
+	// (option WithRunningEventFilterInitializer), the others with blockchain.New's default
+	if !sc.Pruning && (k.Seed+uint64(len(k.Family)))%3 == 0 {
+		sc.CoreInit = true
 	}
 	return sc
 }
@@ -556,9 +776,26 @@ func main() {
 				keys = append(keys, scenKey{"boundary-init-fault", f.Seed*4 + v, !dstNew, !dstNew, "memory"})
 			}
 		}
-		// Pebble v2 in the quick tier too
+		// the same on a pruning node (floor-aware initialiser, resume point clamped to the floor)
+		for v := uint64(0); v < 8; v++ {
+			if !f.Thorough() && v != (f.Seed*3)%8 && v != (f.Seed*3+5)%8 {
+				continue
+			}
+			dstNew := (f.Seed+v)%2 == 0
+			keys = append(keys, scenKey{"boundary-init-fault-pruned", f.Seed*8 + v, dstNew, dstNew, "memory"})
+		}
+		// random histories of a pruning node
+		for i := 0; i < f.Scale(3, 12); i++ {
+			keys = append(keys, scenKey{"prune-mixed", f.Seed*1000 + uint64(i), i%2 == 0, (uint64(i)+f.Seed)%2 == 0, "memory"})
+		}
+		// class declarations / migrations / L1-handler messages stored, reverted and stored again
+		for i := 0; i < f.Scale(2, 6); i++ {
+			keys = append(keys, scenKey{"classes", f.Seed*1000 + uint64(i), i%2 == 1, (uint64(i)+f.Seed)%2 == 1, "memory"})
+		}
+		// Pebble v2 in the quick tier too (its batch / range-delete code is its own)
 		keys = append(keys, scenKey{"short", f.Seed*1000 + 900, f.Seed%2 == 0, f.Seed%2 == 1, "pebble"})
 		keys = append(keys, scenKey{"rejects", f.Seed*1000 + 900, f.Seed%2 == 1, f.Seed%2 == 0, "pebble"})
+		keys = append(keys, scenKey{"prune-mixed", f.Seed*1000 + 900, f.Seed%2 == 0, f.Seed%2 == 0, "pebble"})
 		for _, dstNew := range []bool{false, true} {
 			keys = append(keys, scenKey{"boundary-directed-killed", f.Seed, dstNew, dstNew, "memory"})
 			if f.Thorough() || dstNew == (f.Seed%2 == 1) {
@@ -582,6 +819,7 @@ func main() {
 				for _, dstNew := range []bool{false, true} {
 					keys = append(keys, scenKey{"short", f.Seed*1000 + 500 + uint64(i), i%2 == 0, dstNew, "pebble"})
 					keys = append(keys, scenKey{"prune", f.Seed*1000 + 500 + uint64(i), i%2 == 0, dstNew, "pebble"})
+					keys = append(keys, scenKey{"prune-mixed", f.Seed*1000 + 500 + uint64(i), i%2 == 1, dstNew, "pebble"})
 				}
 			}
 		}
